@@ -215,7 +215,8 @@ type tr struct {
 
 var leanKeywords = strings.Fields("at from fun end open in then else if let have show do match with by def theorem " +
 	"example instance structure inductive class where namespace section variable universe import export private " +
-	"protected mutual deriving Type Prop Sort return for unless this max min true false some none not and or decide")
+	"protected mutual deriving Type Prop Sort return for unless this max min true false some none not and or decide " +
+	"mut matches macro syntax notation abbrev axiom opaque unsafe partial noncomputable termination_by using calc nomatch try catch finally")
 
 // fresh picks a Lean name for a Go variable that clashes neither with a parameter or definition nor with a variable
 // bound around this point
